@@ -292,6 +292,12 @@ for nm, ar, kind, expr, real in PAD:
                                     tier='quick' if isa in ('sse2', 'sse41') else 'thorough'))
         P.reused.append(('C03', fn + ' [pad]', isa))
 
+# "only lowp types may use hardware reciprocal/rsqrt approximations": a structural obligation on every function under contract here that is not a
+# lowp instantiation - no call reachable from it in the SIMD extraction is an rcp/rsqrt intrinsic (decided by a scan of the IR call graph)
+for _c in P.contracts:
+    if 'lowp' not in _c.fn:
+        _c.forbid_calls = r'^llvm\.x86\.(sse|avx)[0-9a-z]*\.(rcp|rsqrt)\.'
+
 P.level_text = ('the value contracts of C01 (vector op == scalar overload, bitwise), C12/C10/C02/C04 (textbook definitions over the reals, plus the '
                 'bit-exact branch facts of C12) are enforced on SIMD extractions (GLM_FORCE_INTRINSICS + aligned default types) at SSE2, SSE4.1 and '
                 'AVX2+FMA; the same contracts hold on the pure extraction in those properties, so both builds equal one specification; fma and '
